@@ -205,6 +205,11 @@ func genServices(r *Rand, d model.Doc, n int) []model.ServiceCfg {
 			if r.Chance(15) {
 				v.Values = append(v.Values, PickOf(r, "extra", "2"))
 			}
+			if r.Chance(4) {
+				// a value that is legal in the file but does not fit one argument on the
+				// wire (255 octets): e.g. a long allow-commands expression
+				v.Values = []string{"^(" + r.Alnum(PickOf(r, 250, 260, 300)) + ")$"}
+			}
 			s.SetValues = append(s.SetValues, v)
 		}
 		out = append(out, s)
